@@ -730,7 +730,7 @@ func runC09(r *core.Run) {
 									bax = len(sb) - 2
 								}
 								if sa[len(sa)-1] == sb[bax] {
-									for _, mode := range []string{"safe", "reuse", "incr"} {
+									for _, mode := range []string{"safe", "reuse", "incr", "reuse:S", "incr:S", "reuse:T", "reuse:misfit", "unsafe+reuse", "unsafe+reuse:misfit"} {
 										laRun(r, laCase{op: "Dot", d: d, sa: sa, sb: sb, la: la, lb: lb, mode: mode, vs: vs, api: "func"})
 									}
 								}
